@@ -341,7 +341,7 @@ fn radix_cases(rep: &mut Report) {
 
 pub fn run(ctx: &Ctx) -> i32 {
     let mut total = Report::new();
-    let cfg = util::ForkCfg { threads: ctx.threads, mem_bytes: 4 << 30, case_timeout_s: 120, died_signature: "C18/abort".into() };
+    let cfg = util::ForkCfg { threads: ctx.threads, mem_bytes: 4 << 30, case_timeout_s: 120, died_signature: "C18/abort".into(), resource_is_violation: false };
     let strs = strings(if ctx.quick() { 3 } else { 4 });
     let mut pats = strings(2);
     pats.remove(0); // patterns/separators are non-empty
